@@ -13,6 +13,7 @@
 import YashModel.Input.Steps
 import YashModel.Input.Utf8
 import YashModel.Input.ChunkLemmas
+import YashModel.Input.SpecEq
 namespace YashModel.Input
 
 /-- ★ `next_line`: the line and the rest are the input; the line has no newline except possibly as
@@ -28,6 +29,25 @@ theorem next_line_exact (inp line rest : List Byte) (h : nextLine inp = (line, r
   exact ⟨splitLine_append inp, splitLine_no_inner_nl inp, splitLine_end inp, splitLine_nil_iff inp⟩
 
 example : nextLine [112, 10, 113] = ([112, 10], [113]) := by decide
+
+/-- ★ the same as offsets, for **arbitrary bytes** (no assumption about UTF-8: a lead-like byte before
+    the newline changes nothing): `next_line` takes the bytes up to and including the first newline —
+    `k + 1` bytes where `k` is the number of bytes before the first newline — or everything if there is
+    none; the descriptor then stands exactly one past that newline. -/
+theorem next_line_offset (inp : List Byte) :
+    nextLine inp = (inp.take ((inp.takeWhile (· != NL)).length + 1),
+                    inp.drop ((inp.takeWhile (· != NL)).length + 1)) := by
+  rw [nextLine_eq]
+  induction inp with
+  | nil => simp [splitLine]
+  | cons b rest ih =>
+    by_cases hb : b = NL
+    · simp [splitLine, hb]
+    · simp [splitLine, hb, ih]
+
+/-- 0xE2 (the lead byte of a three-byte sequence) right before the newline: the line still ends at
+    the newline -/
+example : nextLine [97, 0xE2, 10, 98, 10] = ([97, 0xE2, 10], [98, 10]) := by decide
 
 /-- a source that delivers its bytes in chunks is, read one byte at a time, the byte stream of the
     concatenated chunks (empty chunks included) -/
@@ -119,6 +139,36 @@ theorem read_chunking_irrelevant (d : Nat) (hd : d < 128) (raw : Bool) (cs ds : 
     rw [h1'] at this
     rw [nextLine_eq, this]
     exact ⟨rfl, rfl⟩
+
+/-- ★ what `read` consumes, for **every** byte input (valid UTF-8 or not), delimiter and mode: it
+    consumes a prefix of the stream; at end of input it has consumed everything; when it found its
+    delimiter the prefix ends with the delimiter byte and what is left starts right after it — nothing
+    of what follows has been taken; with `-r` that delimiter byte is the *first* one in the stream
+    (for the default delimiter: exactly one line).  Without `-r` the prefix may contain earlier
+    delimiter bytes only as backslash-newline continuations or backslash-quoted characters (that part
+    is the definition of `readLineGo`, mirrored from `read/input.rs`). -/
+theorem read_consumes (d : Nat) (hd : d < 128) (raw : Bool) (inp : List Byte) :
+    (∃ pre, pre ++ (readLine d raw inp []).2.2 = inp)
+    ∧ ((readLine d raw inp []).2.1 = .eof → (readLine d raw inp []).2.2 = [])
+    ∧ ((readLine d raw inp []).2.1 = .found →
+        ∃ pre bl, pre ++ (readLine d raw inp []).2.2 = inp ∧ pre.getLast? = some bl ∧ bl.toNat = d
+          ∧ (raw = true → ∀ x ∈ pre.dropLast, x.toNat ≠ d)) := by
+  refine ⟨readLine_suffix raw inp [], readLineGo_eof d raw false [] inp [], ?_⟩
+  intro hf
+  have hrl : readLineGo d raw false [] inp []
+      = ((readLine d raw inp []).1, .found, (readLine d raw inp []).2.2) := by
+    rw [← hf]; rfl
+  obtain ⟨pre, bl, h1, h2, h3⟩ := readLineGo_line d hd raw false [] inp [] _ _ hrl
+  refine ⟨pre, bl, h1, h2, h3, ?_⟩
+  intro hraw
+  subst hraw
+  obtain ⟨pre', bl', h1', _, _, h4'⟩ := readLineGo_raw_first d hd [] inp [] _ _ hrl
+  have hpp : pre' = pre := List.append_cancel_right (h1'.trans h1.symm)
+  subst hpp
+  exact h4'
+
+example : readLine 10 true [0xE2, 0x82, 0xAC, 10, 120] [] = ([(Char.ofNat 0x20AC, false)], .found, [120]) := by
+  decide
 
 /-- ★ chunking-independence of a *whole run*.  `runC chunks` is the shell fed through standard input
     by a source that delivers the script in the given chunks; every access to the descriptor (the
@@ -375,6 +425,84 @@ theorem loop_app (n m : Nat) (s sf : State) (log log' lg : List Iter) (S : List 
     (h : loop n s log = (sf, .eof, lg)) (he : sf.hitEof = false) :
     ∃ o, (loop (n + m) (s.app S) log').1.out = o ++ sf.out :=
   (prefix_monotone_state n m s sf log log' lg S h he).1
+
+/-- ★ **the machine is the line-by-line reference reader.**  For every script, standard input and
+    feed kind, the run of the machine (byte-at-a-time line reader, lexer buffer, incremental pulling,
+    read-eval loop) and the run of `Spec.specRun` agree on everything but the ghost flag: standard
+    output, verbose echo, exit status, variables, aliases, options, offset and bytes left of the
+    descriptor, and how the run ended.  `specLoop` is the statement of "line by line, no further than
+    needed, earlier lines take effect on later ones": each iteration takes the *fewest whole lines*
+    (`specPull` = least `k` with `takeLines k` complete) for the parser **configured from the state as it
+    is then** (`parserOf s`: aliases and `portable` after everything executed so far), runs the
+    command with the remaining lines as the shared standard input, and only then looks further.  A
+    model that kept a snapshot of the parsing mode or of the aliases, or whose reader took more or
+    less than whole lines, would not satisfy this equation. -/
+theorem run_eq_specRun (shared : Bool) (script data : List Byte) :
+    (run shared script data).1.erase = (specRun shared script data).1.erase
+    ∧ (run shared script data).2.1 = (specRun shared script data).2 :=
+  loop_eq_specLoop (script.length + 2) _ _ [] rfl
+
+theorem runFile_eq_specRunFile (script data : List Byte) :
+    (runFile script data).1.erase = (specRunFile script data).1.erase
+    ∧ (runFile script data).2.1 = (specRunFile script data).2 :=
+  loop_eq_specLoop (script.length + 2) _ _ [] rfl
+
+/-- end to end: the shell fed through a pipe in arbitrary chunks, touching its descriptor only by
+    one-byte reads, is the line-by-line reference reader on the concatenated bytes -/
+theorem runC_eq_specRun (cs : List (List Byte)) :
+    (runC cs).1.flat.erase = (specRun true cs.flatten []).1.erase
+    ∧ (runC cs).2.1 = (specRun true cs.flatten []).2 := by
+  obtain ⟨⟨a, b, _⟩, _⟩ := run_chunking_irrelevant cs cs
+  obtain ⟨c, d⟩ := run_eq_specRun true cs.flatten []
+  exact ⟨by rw [a]; exact c, by rw [b]; exact d⟩
+
+/-- the observables of the previous theorem, spelled out -/
+theorem run_eq_specRun_observables (shared : Bool) (script data : List Byte) :
+    (run shared script data).1.out = (specRun shared script data).1.out
+    ∧ (run shared script data).1.status = (specRun shared script data).1.status
+    ∧ (run shared script data).1.echo = (specRun shared script data).1.echo
+    ∧ (run shared script data).1.pos = (specRun shared script data).1.pos
+    ∧ (run shared script data).1.vars = (specRun shared script data).1.vars
+    ∧ (run shared script data).1.aliases = (specRun shared script data).1.aliases
+    ∧ (run shared script data).1.portable = (specRun shared script data).1.portable
+    ∧ (run shared script data).1.inp = (specRun shared script data).1.inp := by
+  have e := (run_eq_specRun shared script data).1
+  have f : ∀ {α : Type} (g : State → α), g (run shared script data).1.erase
+      = g (specRun shared script data).1.erase := fun g => by rw [e]
+  exact ⟨f (·.out), f (·.status), f (·.echo), f (·.pos), f (·.vars), f (·.aliases), f (·.portable),
+    f (·.inp)⟩
+
+/-- the reference reader's `specPull` meets its description: it returns the first `k ≥ 1` lines for the
+    least `k` whose text is not incomplete for the parser (or all lines, judged at end of input), and
+    what follows them -/
+theorem specPull_least (parse : Bool → List Byte → ParseRes) (inp : List Byte) :
+    ∃ k, (specPull parse (inp.length + 1) 1 inp).1 = (takeLines k inp).1
+      ∧ (specPull parse (inp.length + 1) 1 inp).2.1 = (takeLines k inp).2
+      ∧ (∀ j, 0 < j → j < k → (parse false (takeLines j inp).1).isIncomplete = true)
+      ∧ ((0 < k ∧ (specPull parse (inp.length + 1) 1 inp).2.2 = parse false (takeLines k inp).1
+            ∧ (parse false (takeLines k inp).1).isIncomplete = false)
+         ∨ ((takeLines k inp).2 = []
+            ∧ (specPull parse (inp.length + 1) 1 inp).2.2 = parse true (takeLines k inp).1)) := by
+  obtain ⟨k, h1, h2, _, h4, h5⟩ := pull_exact parse inp
+  have e := pull_eq_specPull parse inp
+  have e1 := congrArg (·.1) e
+  have e2 := congrArg (·.2.1) e
+  have e3 := congrArg (·.2.2) e
+  simp only at e1 e2 e3
+  refine ⟨k, by rw [← e1]; exact h1, by rw [← e2]; exact h2, h4, ?_⟩
+  rcases h5 with ⟨a, b, c⟩ | ⟨a, b⟩
+  · refine Or.inl ⟨a, ?_, ?_⟩
+    · rw [← e3, b, h1]
+    · rw [← h1, ← b]; exact c
+  · refine Or.inr ⟨?_, ?_⟩
+    · rw [← h2]; exact a
+    · rw [← e3, b, h1]
+
+example :
+    (specPull (fun _ t => if t.length < 4 then .incomplete else .error) 7 1 [1, 10, 2, 10, 3, 10]).1
+      = [1, 10, 2, 10]
+    ∧ (specPull (fun _ t => if t.length < 4 then .incomplete else .error) 7 1 [1, 10, 2, 10, 3, 10]).2.1
+      = [3, 10] := by decide
 
 /-- ★ `P` is a complete prefix when its own run ends at end of input without any reader having met
     the end of the input in the middle of something (a command line, a `read`, a `cat`).  Then the
